@@ -83,6 +83,11 @@ package vpack
 //   dynamic_vpack.go Decompress: lastRnd not advanced after a +1 delta -> C42:desync at depth 2
 //   lru_table.go fetch(): bound check removed                        -> C42:decoder-panic (enum/frames)
 //
+// Independent seeded changes: C42-B (propWindow.lookup ignores the presence mask) was MISSED by
+// the canonical alphabet and is DETECTED by seq/presence16 (depth 2, C42:stateful-roundtrip);
+// C42-A (codec uses its own instead of the negotiated table size) lives in
+// network/msgCompressor.go and is DETECTED by part "network" (harness/network/verif_c42_net_test.go).
+//
 // Finding on the unchanged tree: C42:misordered-r-keys / C42:misordered-prop-keys, see
 // /verif/findings/C42-misordered-map-keys.
 
